@@ -431,6 +431,7 @@ def run(ctx):
     # ... and a refused slot must not be counted: the compile of a text that needs too many compiler temporaries must end in a
     # result code, not in a clean-up that trusts a counter bumped before the capacity test (shared with C05)
     importlib.import_module("rules.c05").counter_unchanged_on_refusal(db, rep, "D19-COUNTER-ON-REFUSAL")
+    errno_cleared_before_judged(db, rep)
 
     # ---- D16: "bad numbers ... reports each problem as an error record": every conversion of a token into a number looks at
     # how much of the token the conversion took
@@ -629,3 +630,29 @@ def d18_hex_prefix_needs_digit(db, rep, rule="D18-HEX-PREFIX-NEEDS-DIGIT"):
                   "_strtoll steps over `0x` (line %s) without looking at the character after it: the token `0x` converts to 0 with everything consumed, "
                   "so `.const 4 c 0x` is accepted without an error record" % x.line, line=x.line)
 
+
+
+def errno_cleared_before_judged(db, rep, rule="D20-ERRNO-CLEARED"):
+    """errno is only ever SET by the C library, never cleared: a conversion that succeeds leaves an ERANGE from any earlier call
+    (a strtod of `1e-310` three lines up in the same text) in place.  A function that judges a conversion by comparing errno
+    must therefore store 0 into errno on every path to the comparison - otherwise a well-formed number is reported as out of
+    range (and replaced) depending on what was parsed before: the parse of one function depends on the text of another."""
+    n = 0
+    for f in db.all_functions():
+        def is_errno(e):
+            return any(y.k == "CallExpr" and y.name == "__errno_location" for y in e.walk())
+        cmps = [x for x in f.walk() if x.k == "BinaryOperator" and x.op in ("==", "!=") and (is_errno(x.c[0]) != is_errno(x.c[1]))]
+        if not cmps:
+            continue
+        clears = [x for x in f.walk() if x.k == "BinaryOperator" and x.op == "=" and is_errno(x.c[0]) and strip_casts(x.c[1]).v == 0]
+        for c in cmps:
+            n += 1
+            rep.saw(f)
+            ok = any(f.dominates(s, c) for s in clears)
+            rep.check(ok, rule, where(f), "%s@%s" % (f.name, c.line), "errno is cleared on every path before it is compared",
+                      "%s compares errno (line %s) without having stored 0 into it first: an ERANGE left by an earlier library call - strtod of a "
+                      "subnormal literal anywhere before - makes every following well-formed number `out of range`; what one line parses to depends on "
+                      "the lines before it" % (f.name, c.line), line=c.line)
+    if n < 1:
+        raise AnalysisBroken("no comparison of errno found (the range test of the number conversions has moved)")
+    return n
